@@ -42,13 +42,19 @@ def run_family(tree, family, seed, extra=(), timeout=600, defs=()):
     found = False
     for fam in family.split(","):
         try:
-            p = subprocess.run([exe, fam, str(seed)] + list(extra), stdout=subprocess.PIPE,
+            fexe = exe
+            if fam.startswith("ard"):   # C19: the Arduino classes compiled for the host, against the same library objects
+                fexe = os.path.join(os.path.dirname(exe), "replay_arduino")
+                if not os.path.exists(fexe):
+                    texts.append("$ replay_arduino %s %s\n(not built: the Arduino sources did not compile for the host)" % (fam, seed))
+                    continue
+            p = subprocess.run([fexe, fam, str(seed)] + list(extra), stdout=subprocess.PIPE,
                                stderr=subprocess.STDOUT, timeout=timeout)
             txt = p.stdout.decode(errors="replace")
         except subprocess.TimeoutExpired:
             txt = "replay timeout"
             p = None
-        texts.append("$ replay_api %s %s\n%s" % (fam, seed, txt[-6000:]))
+        texts.append("$ %s %s %s\n%s" % (os.path.basename(fexe), fam, seed, txt[-6000:]))
         if "REPLAY-FAIL" in txt or (p is not None and p.returncode not in (0, 2) and ("Sanitizer" in txt or "runtime error:" in txt)):
             found = True
             break
